@@ -56,3 +56,31 @@ package core
 //@ call storeBlock requires[index] block.Index == expectedHeight
 //@ call storeBlock requires[setting] bc.config.StateRootInHeader == block.StateRootEnabled
 //@ call storeBlock requires[merkle] !bc.config.SkipBlockVerification ==> block.MerkleRoot == blk.blockMerkle(block)
+
+//@ prop C07
+//@ import transaction github.com/nspcc-dev/neo-go/pkg/core/transaction
+//@ import native github.com/nspcc-dev/neo-go/pkg/core/native
+
+//@ func (*Blockchain).P2PSigExtensionsEnabled
+//@ inline
+
+// Attribute fee: the sum over the attributes of base fee, times the number of signers for a
+// Conflicts attribute and times NKeys+1 for a NotaryAssisted one.
+//@ spec feeOf(bc *Blockchain, tx *transaction.Transaction, a transaction.Attribute) int = ite(a.Type == transaction.ConflictsT, native.attrBaseFee(bc.policy, a.Type) * len(tx.Signers), ite(a.Type == transaction.NotaryAssistedT, ite(bc.config.P2PSigExtensions, native.attrBaseFee(bc.policy, a.Type) * (a.Value.(*transaction.NotaryAssisted).NKeys + 1), 0), native.attrBaseFee(bc.policy, a.Type)))
+//@ spec attrFees(bc *Blockchain, tx *transaction.Transaction, k int) int decreases k = ite(k <= 0, 0, attrFees(bc, tx, k-1) + feeOf(bc, tx, tx.Attributes[k-1]))
+//@ func (*Blockchain).CalculateAttributesFee
+//@ requires bc != nil && tx != nil && bc.policy != nil && len(tx.Attributes) <= 16 && len(tx.Signers) <= 16
+//@ requires forall(i, 0, len(tx.Attributes), tx.Attributes[i].Type == transaction.NotaryAssistedT ==> is(tx.Attributes[i].Value, *transaction.NotaryAssisted) && tx.Attributes[i].Value.(*transaction.NotaryAssisted) != nil)
+//@ ensures[sum] result == attrFees(bc, tx, len(tx.Attributes))
+//@ loop 0 invariant feeSum == attrFees(bc, tx, $i) && 0 <= feeSum && feeSum <= $i * 256000000000
+
+// Admission guards in force when the transaction is handed to the pool.
+//@ func (*Blockchain).verifyAndPoolTx
+//@ may-panic
+//@ opt frame off
+//@ opt stable t.ValidUntilBlock, t.NetworkFee
+//@ opt opaque-callees (*Pool).Add,(*Transaction).Hash,(*Transaction).Size,CalculateAttributesFee
+//@ requires bc != nil && t != nil
+//@ call (*Pool).Add requires[window] t.ValidUntilBlock > height
+//@ call (*Pool).Add requires[size] size <= transaction.MaxTransactionSize
+//@ call (*Pool).Add requires[fee] netFee >= 0
